@@ -20,7 +20,7 @@ def dispatch (line : String) : String :=
     | "bi" :: _ | "biplan" :: _ => C02.handle toks
     | "bisteps" :: _ => C08.handle toks
     | "ow" :: _ | "escape" :: _ | "ansic" :: _ | "loc" :: _ | "target" :: _ => C04.handle toks
-    | "serve" :: _ | "safejoin" :: _ | "hubcalls" :: _ => C12.handle toks
+    | "serve" :: _ | "safejoin" :: _ | "hubcalls" :: _ | "hubmulti" :: _ => C12.handle toks
     | "ck" :: _ => C17.handle toks
     | "glob" :: _ | "excl" :: _ | "plan" :: _ | "nt" :: _ | "parse" :: _ | "render" :: _ => C19.handle toks
     | "hdrenc" :: _ | "hdrdec" :: _ | "msgdec" :: _ | "msgenc" :: _ | "sigdec" :: _ | "sigenc" :: _
